@@ -115,6 +115,15 @@ func init() {
 		st.assume(And(Ge(r, IntLit(-1)), Le(r, ng)))
 		return r, true
 	})
+	reg("unicode.IsLetter", nil, func(st *State, fr *Frame, call ssa.CallInstruction, a []SVal) (SVal, bool) {
+		return App(SBool, st.declareFun("unicode_isletter", []Sort{SInt}, SBool), st.scalar(a[0])), true
+	})
+	reg("unicode.IsDigit", nil, func(st *State, fr *Frame, call ssa.CallInstruction, a []SVal) (SVal, bool) {
+		return App(SBool, st.declareFun("unicode_isdigit", []Sort{SInt}, SBool), st.scalar(a[0])), true
+	})
+	reg("strconv.Quote", nil, func(st *State, fr *Frame, call ssa.CallInstruction, a []SVal) (SVal, bool) {
+		return st.strQuote(st.scalar(a[0])), true
+	})
 	reg("sort.Slice", []string{"E:*"}, func(st *State, fr *Frame, call ssa.CallInstruction, a []SVal) (SVal, bool) {
 		return st.sortSlice(a[0]), true
 	})
@@ -256,6 +265,17 @@ func (st *State) durStr(d *Term) *Term {
 		st.assume(Forall([]*Term{x}, And(App(SBool, ok, App(SStr, f, x)), Eq(App(SInt, g, App(SStr, f, x)), x)), App(SStr, f, x)))
 	}
 	return App(SStr, f, d)
+}
+
+// strQuote: strconv.Quote; the result is longer than its argument (it starts and ends with a double quote)
+func (st *State) strQuote(s *Term) *Term {
+	f := st.declareFun("str_quote", []Sort{SStr}, SStr)
+	if !st.declared["axiom:str_quote"] {
+		st.declared["axiom:str_quote"] = true
+		x := Const("s!qq", SStr)
+		st.assume(Forall([]*Term{x}, Ge(st.strLen(App(SStr, f, x)), Add(st.strLen(x), IntLit(2))), App(SStr, f, x)))
+	}
+	return App(SStr, f, s)
 }
 
 func (st *State) reMatches(re, s *Term) *Term {
@@ -485,6 +505,20 @@ func (st *State) specBuiltin(env *Env, e *Expr) (SVal, types.Type, bool) {
 		}
 		v, t := st.elab(&n, e.Args[0])
 		return v, t, true
+	case "runestart":
+		a, _ := st.elab(env, e.Args[0])
+		b, _ := st.elab(env, e.Args[1])
+		return st.runeStart(st.scalar(a), st.scalar(b)), tBool, true
+	case "runeat":
+		a, _ := st.elab(env, e.Args[0])
+		b, _ := st.elab(env, e.Args[1])
+		return st.runeAt(st.scalar(a), st.scalar(b)), tInt, true
+	case "isletter", "isdigit":
+		a, _ := st.elab(env, e.Args[0])
+		return App(SBool, st.declareFun("unicode_"+e.Name, []Sort{SInt}, SBool), st.scalar(a)), tBool, true
+	case "quoted":
+		a, _ := st.elab(env, e.Args[0])
+		return st.strQuote(st.scalar(a)), tString, true
 	case "fresh_only":
 		// fresh_only("E:uuid.UUID:", ...): in the arrays matching the patterns, every object that existed when the
 		// unit was entered still holds what it held then (only objects allocated since may differ)
